@@ -1,3 +1,7 @@
+// Verification hook: resolve this module's `std::` paths through the facade.
+#[cfg(divan_verif)]
+use ::divan_verif_rt::shim as std;
+
 use std::{
     num::NonZeroUsize,
     panic::AssertUnwindSafe,
@@ -133,6 +137,11 @@ impl ThreadPool {
 
     #[cfg(test)]
     fn aux_thread_count(&self) -> usize {
+        self.threads.lock().unwrap_or_else(PoisonError::into_inner).len()
+    }
+
+    #[cfg(divan_verif)]
+    pub(crate) fn verif_aux_thread_count(&self) -> usize {
         self.threads.lock().unwrap_or_else(PoisonError::into_inner).len()
     }
 }
